@@ -328,10 +328,25 @@ def run(ctx):
 
     import time
     stages = ctx.extra.setdefault("stage_seconds", {"proofs": round(time.time() - ctx.t0, 1)})
-    for fn in (kernel_level, data_level_model, model_round2, model_round3, oracle_coupling, oracle_wide, oracle_long_lags,
+    for fn in (kernel_level, data_level_model, model_round2, model_round3, model_round4, oracle_coupling, oracle_wide, oracle_long_lags,
                oracle_periodic, oracle_knn, oracle_pure_python, oracle_climate, oracle_surrogates):
         t0 = time.time()
-        fn(ctx, rng, nprng, quick)
+        try:
+            fn(ctx, rng, nprng, quick)
+        except Exception as e:  # noqa
+            # an exception that escapes from the implementation (innermost Python frame inside the
+            # pyunicorn package) on an input the stage generated is a failing input, not a machinery
+            # problem; anything raised by the harness itself is re-raised (exit 2)
+            import traceback
+            tb = traceback.extract_tb(e.__traceback__)
+            last = tb[-1].filename.replace(os.sep, "/") if tb else ""
+            if "/pyunicorn/" not in last or "/harness/" in last:
+                raise
+            ctx.fail({"kind": "crash", "stage": fn.__name__, "exception": type(e).__name__},
+                     f"the implementation raised {type(e).__name__}: {e} "
+                     f"({os.path.basename(last)}:{tb[-1].lineno}) on an input of stage {fn.__name__}",
+                     {"stage": fn.__name__, "seed": ctx.seed, "tier": ctx.tier,
+                      "traceback": [ln.rstrip() for ln in traceback.format_exception(e)[-8:]]})
         stages[fn.__name__] = round(time.time() - t0, 1)
     print("  stages:", stages)
 
@@ -921,6 +936,194 @@ def model_round2(ctx, rng, nprng, quick):
     return bad
 
 
+
+# --------------------------------------------------------------------------
+# round 4: equal occupancy of the quantile bins, the declared LAG type at its wrap, partial
+# correlation for N up to 6 in both float widths / layouts, table-free Gaussian entries
+# --------------------------------------------------------------------------
+
+def model_round4(ctx, rng, nprng, quick):
+    from pyunicorn.funcnet._ext import numerics as FK
+    from pyunicorn.funcnet import CouplingAnalysis
+    from pyunicorn.climate import PartialCorrelationClimateNetwork
+    from pyunicorn.core._ext.types import LAG
+    cor = Cor(ctx, "Lean Coupling4 model == _quantile_bin_array occupancy, LAG store (numpy cast and the Cython "
+                   "cast of _cross_correlation_max at tau_max 128..220), partial correlation N 2..6 (exact / 2e-5)")
+
+    # ---- (1) occupancy of the quantile bins -------------------------------------------------
+    for c in range(120 if quick else 1200):
+        bins = rng.choice([1, 2, 3, 4, 5, 6, 8, 12])
+        kind = rng.choice(["equal", "equal", "ragged", "ties"])
+        if kind == "equal":
+            m = rng.choice([1, 2, 3, 5, 8, 20])
+            T = m * bins
+        else:
+            T = rng.choice([1, 2, 3, 5, 7, 11, 13, 26, 50])
+        if kind == "ties":
+            base = nprng.randint(0, max(2, T // 2), size=T).astype(float)
+        else:
+            # tie-free: a random strictly increasing map of a permutation (dyadic gaps)
+            gaps = nprng.randint(1, 9, size=T) / 8.0
+            base = (np.cumsum(gaps) - rng.choice([0, 3, 40]))[nprng.permutation(T)]
+        k = rng.choice([0, 0, 20, -20, 40, -40])
+        dt = rng.choice([np.float64, np.float32])
+        row = (base * 2.0 ** k).astype(dt)
+        arr = np.array([row, row[::-1].copy()])
+        if rng.random() < 0.3:
+            arr = np.asfortranarray(arr)
+        symb = np.asarray(CouplingAnalysis._quantile_bin_array(arr, bins=bins))
+        s0 = symb[0].astype(int)
+        occ = [int((s0 == a).sum()) for a in range(-1, bins + 1)]
+        cor.add(f"qocc {bins} {enc_rats(Fraction(float(v)) for v in row)}", exact(enc_ints(occ)))
+        tiefree = len(set(row.tolist())) == T
+        ctx.case(("qocc", bins, str(dt), row.tobytes().hex()), T >= 2)
+        ctx.count(f"kernel:quantile_occupancy:{kind}")
+        if tiefree and T % bins == 0 and T > 0:
+            # model-free: "this partition results in a uniform distribution of the marginals"
+            if occ != [0] + [T // bins] * bins + [0]:
+                ctx.fail({"kind": "kernel", "kernel": "_quantile_bin_array", "check": "equal_occupancy"},
+                         f"tie-free row of T = {T} = {T // bins}*{bins} samples: the symbols 0..bins-1 are not taken "
+                         f"by T/bins samples each",
+                         {"row": lst(row), "bins": bins, "occupancy(-1..bins)": occ})
+    # public method: the marginal entropy of an equally occupied partition is log(bins)
+    for c in range(6 if quick else 40):
+        bins = rng.choice([2, 3, 4, 6, 8])
+        m = rng.choice([2, 3, 5, 10])
+        T, N = m * bins, rng.choice([2, 3])
+        d = np.column_stack([(nprng.permutation(T) * 2.0 ** rng.choice([0, 20, -20])
+                              + rng.choice([0, 5])) for _ in range(N)])
+        d = d.astype(rng.choice([np.float64, np.float32]))
+        with quiet():
+            mi = CouplingAnalysis(d.copy(), silence_level=3).mutual_information(
+                tau_max=0, estimator="binning", bins=bins, lag_mode="all")
+        mi = np.asarray(mi, dtype=float).reshape(N, N, -1)[:, :, 0]
+        ctx.case(("qocc-mi", bins, T, d.tobytes().hex()), True)
+        ctx.count("oracle:binning_entropy_log_bins")
+        if not np.allclose(np.diag(mi), np.log(bins), atol=2e-5) or mi.max() > np.log(bins) + 2e-5:
+            ctx.fail({"kind": "coupling", "method": "mutual_information", "estimator": "binning",
+                      "check": "equal_occupancy"},
+                     f"tie-free data, T = {m}*{bins}, tau_max = 0: the self-information is not log(bins) "
+                     f"(or an entry exceeds it)",
+                     {"data": lst(d), "bins": bins, "observed": lst(mi), "expected_diagonal": float(np.log(bins))})
+
+    # ---- (2) the LAG store ------------------------------------------------------------------
+    bits = np.dtype(LAG).itemsize * 8
+    for c in range(6 if quick else 40):
+        zs = [rng.randrange(-700, 700) for _ in range(40)] + [127, 128, -128, -129, 255, 256, 150, 0]
+        got = np.array(zs, dtype=np.int64).astype(LAG)
+        cor.add(f"lagstore {enc_ints(zs)}",
+                exact(f"{bits};{enc_ints(got)};{enc_ints(got)}"))
+        ctx.count("kernel:lag_store_numpy_cast")
+    if np.dtype(LAG).kind != "i":
+        ctx.obligation("LAG is a signed integer dtype", "correspondence", False, str(np.dtype(LAG)))
+    # the Cython cast `<LAG_t> (tau_max - argmax)` where it wraps: tau_max 128..220
+    for c in range(16 if quick else 150):
+        N = rng.choice([2, 2, 3])
+        tm = rng.randrange(128, 221)
+        cr = rng.choice([1, 2, 3])
+        A = nprng.randint(-1, 2, size=(tm + 1, N, cr)).astype(np.float32)
+        if rng.random() < 0.6:
+            # a single dominant window at a chosen lag (often beyond 127)
+            lag = rng.randrange(0, tm + 1)
+            A[tm - lag] = 3 * np.sign(A[tm] + 0.5)
+        vals, lags = FK._cross_correlation_max(A.copy(), N, tm, cr)
+        cor.add(f"ccmax {N} {tm} {cr} {enc_ints(A.reshape(-1))}",
+                exact(enc_q(vals.reshape(-1), cr) + ";" + enc_ints(lags.reshape(-1))))
+        ctx.case(("cc-long", N, tm, cr, A.tobytes().hex()), True)
+        ctx.count("kernel:cross_correlation:tau_max>127")
+        # model-free: largest lag attaining the absolute maximum, stored modulo 2^bits (known finding C10-lag-int8)
+        for i in range(N):
+            for j in range(N):
+                if i == j:
+                    continue
+                f = [Fraction(int((A[tm - l, i] * A[tm, j]).sum()), cr) for l in range(tm + 1)]
+                mx = max(abs(x) for x in f)
+                best = max(l for l in range(tm + 1) if abs(f[l]) == mx) if mx > 0 else tm
+                stored = (best + 2 ** (bits - 1)) % 2 ** bits - 2 ** (bits - 1)
+                if int(lags[i, j]) != stored or Fraction(float(vals[i, j])).limit_denominator(cr) != f[best]:
+                    ctx.fail({"kind": "kernel", "kernel": "_cross_correlation_max", "check": "long_lag_store"},
+                             "value/lag is not the lag function's entry at the largest lag attaining the absolute "
+                             "maximum (lag stored in the declared LAG type)",
+                             {"array": lst(A), "N": N, "tau_max": tm, "corr_range": cr, "i": i, "j": j,
+                              "expected": [str(f[best]), stored], "observed": [float(vals[i, j]), int(lags[i, j])]})
+
+    # ---- (3) partial correlation, N up to 6, both float widths and layouts ------------------
+    with quiet():
+        net = make_climate(PartialCorrelationClimateNetwork, nprng.randn(10, 3))[0]
+    schur = []
+    for c in range(40 if quick else 300):
+        N = rng.choice([2, 4, 5, 5, 6])
+        T = rng.randrange(N + 4, 30)
+        d = nprng.randint(-4, 5, size=(T, N)).astype(float)
+        if rng.random() < 0.3:
+            d[:, N - 1] = d[:, 0] + nprng.randint(-1, 2, size=T)
+        if rng.random() < 0.2:
+            d[:, 1] = -d[:, 0] + nprng.randint(-1, 2, size=T)
+        for i in range(N):
+            if np.ptp(d[:, i]) == 0:
+                d[rng.randrange(T), i] += 1.0
+        cond = np.linalg.cond(np.corrcoef(d.T))
+        if cond > 1e3:
+            ctx.count("data:partial:ill_conditioned_skipped")
+            continue
+        an = d - d.mean(axis=0)
+        # single precision only where the float32 correlation matrix is inverted stably
+        lay = rng.choice(["f64C", "f64F", "f32C", "f32F"] if cond < 50 else ["f64C", "f64F"])
+        # centred small-integer data are multiples of 1/T: float32 keeps them to ~1e-7 relative
+        an_in = an.astype(np.float32 if "f32" in lay else np.float64)
+        an_in = np.asfortranarray(an_in) if lay.endswith("F") else np.ascontiguousarray(an_in)
+        with quiet():
+            got = np.asarray(net.calculate_similarity_measure(an_in), dtype=float)
+        ctx.case(("pcorr4", T, N, lay, d.tobytes().hex()), True)
+        ctx.count(f"data:partial_correlation:N={N}:{lay}")
+        # model-free: regression residuals of i and j on all other series
+        for i in range(N):
+            for j in range(i + 1, N):
+                Z = [an[:, k] for k in range(N) if k not in (i, j)]
+                ref = ref_partial_corr(an[:, i], an[:, j], Z)
+                tol = 2e-4 if "f32" in lay else 2e-5
+                if np.isfinite(ref) and (abs(got[i, j] - ref) > tol or abs(got[j, i] - ref) > tol):
+                    ctx.fail({"kind": "climate", "class": "PartialCorrelationClimateNetwork", "check": "reference",
+                              "input_class": f"N={N}:{lay}"},
+                             f"entry ({i},{j}) is not the correlation of the regression residuals on all other series",
+                             {"data": lst(d), "layout": lay, "i": i, "j": j, "observed": [float(got[i, j]), float(got[j, i])],
+                              "expected": float(ref)})
+
+        def compare(m, got=got, N=N, lay=lay):
+            if m == "singular":
+                return "model: covariance matrix singular, but numpy reports a small condition number"
+            cert, ninv, pc, piv = m.split("|")
+            if cert != "1":
+                return "Gauss-Jordan result is not the inverse (C·P != I exactly)"
+            sq = np.array([float(x) for x in dec_rats(ninv)]).reshape(N, N)
+            tol = 4e-4 if "f32" in lay else 2e-5
+            if not np.all(np.abs(ssq(got) - sq) <= tol):
+                return f"impl {got.tolist()} (signed squares {ssq(got).tolist()}) model {sq.tolist()}"
+            a, b, f = ninv.split(","), pc.split(","), dec_ints(piv)
+            for k in range(N * N):
+                if k // N != k % N:
+                    # theorem normInv_is_partial_correlation / cov_pivots_regular: no exception
+                    schur.append(a[k] == b[k] and f[k] == 1)
+            return None
+        cor.add(f"pcorr {T} {N} {flat_series_major(d)}", compare)
+
+    # ---- (4) the Gaussian entry read through the table == read from the Gram function -------
+    pend = {}
+    for c in range(4 if quick else 30):
+        N = 2
+        T = rng.randrange(12, 20)
+        tm, past, mit = rng.choice([0, 1, 2]), rng.choice([1, 2]), rng.choice([0, 1])
+        d = nprng.randint(-3, 4, size=(T, N)).astype(float)
+        args = f"{T} {N} {tm} {past} {mit} {flat_series_major(d)}"
+        cor.add(f"itsq {args}", lambda m, c=c: pend.__setitem__(c, m.split(";")[0]))
+        cor.add(f"itsqfn {args}", lambda m, c=c: None if pend.get(c) == m else f"table {pend.get(c)} function {m}")
+        ctx.count("model:itsq_table_vs_function")
+    bad = cor.run()
+    ctx.obligation(f"model consistency (now theorem normInv_is_partial_correlation): -P_ij/sqrt(P_ii P_jj) of the exact "
+                   f"inverse == residual correlation given all other series, all pivots regular ({len(schur)} entries, N up to 6)",
+                   "correspondence", all(schur) and (len(schur) > 0), "normInvSq != parCorrSqG on some entry")
+    return bad
+
 # --------------------------------------------------------------------------
 # oracle, wide: large samples, float32 caller arrays, power-of-two affine images, call histories
 # on one object, wide tau_max / bins, non-default paths of the pure-Python class
@@ -1036,9 +1239,12 @@ def oracle_wide(ctx, rng, nprng, quick):
                      dict(P, a=lst(apos), b=lst(b), bins=bins))
         try:
             with quiet():
-                g1 = fin(ca.mutual_information(tau_max=tm, estimator="gauss", lag_mode="all"))
+                g1raw = np.asarray(ca.mutual_information(tau_max=tm, estimator="gauss", lag_mode="all"), dtype=float)
+                g1 = fin(g1raw)
                 g2 = fin(c2.mutual_information(tau_max=tm, estimator="gauss", lag_mode="all"))
-            well = np.abs(g1) < 3.0
+            # an exactly collinear pair (r = +-1, estimate inf) is as ill-conditioned as r^2 >= 0.9975:
+            # `fin` would turn it into 0 and make it look well-conditioned (false alarm met in round 4)
+            well = np.isfinite(g1raw) & (np.abs(g1) < 3.0)
             if not close(np.where(well, g2, 0), np.where(well, g1, 0), 1e-4):
                 ctx.fail({"kind": "coupling", "method": "mutual_information", "estimator": "gauss",
                           "check": "affine", "input_class": "power-of-two scale"},
@@ -1371,6 +1577,30 @@ def oracle_long_lags(ctx, rng, nprng, quick):
                      f"({mv[0, 1]}, {ml[0, 1]})",
                      {"T": T, "tau_max": tm, "true_lag": lag, "seed_data": "x_0 = randn, x_1 = x_0 shifted",
                       "observed": [float(mv[0, 1]), int(ml[0, 1])], "expected": [1.0, lag]})
+    # the numpy stores `lag_matrix[i, j] = lag_at_max` of mutual_information / information_transfer
+    # into the same LAG array (Gaussian estimator, lag_mode='max')
+    for c in range(2 if quick else 8):
+        lag = rng.randrange(100, 127) if c % 2 == 0 else rng.randrange(128, 160)
+        tm = lag + rng.randrange(0, 12)
+        T = tm + rng.randrange(150, 220)
+        d = nprng.randn(T, 2)
+        d[lag:, 1] = d[:T - lag, 0] + 0.3 * nprng.randn(T - lag)
+        meth = rng.choice(["mutual_information", "information_transfer"])
+        ca = CouplingAnalysis(d.copy(), silence_level=3)
+        ctx.case(("longlag-mi", meth, T, tm, lag, d.tobytes().hex()), True)
+        ctx.count(f"oracle:long_lag:{meth}:" + ("tau_max<=127" if tm <= 127 else "tau_max>127"))
+        try:
+            with quiet(), np.errstate(all="ignore"):
+                mv, ml = getattr(ca, meth)(tau_max=tm, estimator="gauss", lag_mode="max")
+            obs = int(ml[0, 1])
+        except OverflowError as e:
+            obs = f"OverflowError: {e}"
+        if obs != lag:
+            ctx.fail({"kind": "coupling", "method": meth, "check": "lag_int8",
+                      "input_class": "tau_max>127" if tm > 127 else "tau_max<=127"},
+                     f"x_1(t) = x_0(t - {lag}) + noise, tau_max = {tm}, estimator='gauss', lag_mode='max': "
+                     f"reported lag {obs}",
+                     {"T": T, "tau_max": tm, "true_lag": lag, "method": meth, "observed": obs, "expected": lag})
 
 
 def oracle_periodic(ctx, rng, nprng, quick):
